@@ -46,8 +46,13 @@ def gen_cases(rng, tier):
         k = rng.randint(2, 6)
         grid = rng.choice([64.0, 2.0, 1.0, 4096.0])
         pts = []
+        outside = rng.random() < 0.5    # half of the polylines leave the pixmap: the scalar clipper is part of the model
         for _ in range(k):
-            x = rng.choice([0, w, rng.uniform(0, w)]); y = rng.choice([0, h, rng.uniform(0, h)])
+            if outside and rng.random() < 0.5:
+                x = rng.choice([-1e-38, -0.5, w + 0.5, rng.uniform(-3 * w, 4 * w), rng.choice([-40000.0, 40000.0, 1e6])])
+                y = rng.choice([-1e-38, -0.5, h + 0.5, rng.uniform(-3 * h, 4 * h), rng.choice([-40000.0, 40000.0, 1e6])])
+            else:
+                x = rng.choice([0, w, rng.uniform(0, w)]); y = rng.choice([0, h, rng.uniform(0, h)])
             pts.append((x, y))
         ops = poly_ops(pts, close=rng.random() < 0.3, grid=grid)
         cases.append(("hair_spans", [w, h] + ops))
@@ -119,6 +124,8 @@ def known_class(suite, args, out, what):
 
 
 def relation(suite, args, mo, io):
+    if mo.strip() == "-2" and io.startswith("PANIC"):
+        return True
     return mo == io or (suite != "line_clip" and mo.strip() == "-9")
 
 
